@@ -137,3 +137,6 @@ func H03g_MemberlessResponseAfterGoodOne() {
 	err := TdxQuote(quote, &Options{GetCollateral: true, Getter: w.getter, Now: now})
 	vp.Assert("response-without-signed-member-rejected", err != nil)
 }
+
+// thorough tier: two levels and a module identity, with revocation checking on
+func T03i_k2_m1_WithRevocationChecking() { h03r(0, 2, 1, false, true) }
